@@ -41,6 +41,13 @@ FIELDS = [
     ("gfa2", ["S\ta\t4\t*"], "U\tu\ta", "xx", "A", ["x"], ["xy", "", 5, " "]),
     ("gfa2", [], "X\tf1\tf2", "xx", "i", [1], ["x", 1.5]),
     ("gfa1", [], "H\txz:Z:q", "xx", "Z", ["b c"], ["a\tb", 5]),
+    # tags created at run time without a declared datatype (default datatype)
+    ("gfa1", ["S\tA\t*"], "S\tB\t*", "zz", "auto", [1, 2, -7], []),
+    ("gfa2", ["S\ta\t4\t*", "S\tb\t4\t*"], "E\te\ta+\tb+\t0\t1\t0\t1\t*", "zz", "auto",
+     ["ab", "c d"], []),
+    ("gfa1", [], "S\tB\t*", "zz", "auto", [[1, 2], [3]], []),
+    ("gfa1", [], "S\tB\t*", "zz", "auto", [1.5, 2.5], []),
+    ("gfa1", [], "S\tB\t*", "zz", "auto", [{"a": 1}, {"b": [2]}], []),
 ]
 OPS = ["get", "field_to_s", "str", "validate_field", "validate", "none"]
 
@@ -78,7 +85,7 @@ def run_program(idx, vi, valid, connected, vlevel, prog):
   else:
     line = gfapy.Line(text, version=version, vlevel=vlevel)
   cross = dt == "cross"
-  if dt is not None and not cross:
+  if dt is not None and not cross and dt != "auto":
     line.set_datatype(f, dt)
   before = str(line)
   probs = []
@@ -137,6 +144,146 @@ def run_program(idx, vi, valid, connected, vlevel, prog):
         probs.append(("invalid-value-written-at-level>=2",
                       "str(line) not flagged at level {}".format(vlevel)))
   return trace, probs
+
+
+# lifecycle programs on valid values only: a valid assignment is never
+# rejected at any level, however the tag came into being
+LIFE_OPS = ["set", "setattr", "delete", "get", "str", "validate"]
+LIFE_PROGRAMS = [p for n in (1, 2, 3) for p in itertools.product(LIFE_OPS, repeat=n)
+                 if p[0] in ("set", "setattr")]
+
+
+def run_life(idx, vlevel, prog, mode):
+  """mode: 'alone' | 'gfa' (explicit version, line last) | 'open-first'
+  (version left open, the line arrives before its support lines)"""
+  version, support, text, f, dt, valids, invalids = FIELDS[idx]
+  vals = [v for v in valids]
+  if mode == "alone":
+    line = gfapy.Line(text, version=version, vlevel=vlevel)
+  elif mode == "gfa":
+    g = gfapy.Gfa(support + [text], version=version, vlevel=vlevel)
+    line = [l for l in g.lines if str(l) == text][0]
+  else:
+    g = gfapy.Gfa([text] + support, vlevel=vlevel)
+    line = [l for l in g.lines if str(l) == text][0]
+  declared = dt is not None and dt not in ("cross", "auto")
+  if declared:
+    line.set_datatype(f, dt)
+  trace = []
+  probs = []
+  k = 0
+  for op in prog:
+    v = vals[k % len(vals)]
+    try:
+      if op == "set":
+        line.set(f, v); k += 1
+      elif op == "setattr":
+        setattr(line, f, v); k += 1
+      elif op == "delete":
+        if f in line.tagnames:
+          line.delete(f)
+          if declared:
+            line.set_datatype(f, dt)
+      elif op == "get":
+        line.get(f)
+      elif op == "str":
+        if "INVALID" in str(line):
+          raise gfapy.FormatError("flagged invalid")
+      elif op == "validate":
+        line.validate()
+      trace.append(op + ":ok")
+    except gfapy.Error as e:
+      trace.append(op + ":" + type(e).__name__)
+      probs.append(("valid-value-reported", "{} -> {} at level {} ({})".format(
+          op, type(e).__name__, vlevel, mode)))
+      break
+    except HarnessTimeout:
+      raise
+    except Exception as e:
+      trace.append(op + ":foreign:" + type(e).__name__)
+      probs.append(("foreign-exception", "{} -> {}".format(op, type(e).__name__)))
+      break
+  return trace, probs
+
+
+def invalid_in_open_gfa(idx, vi, vlevel):
+  """the line that fixes the version of an open Gfa must be held to the Gfa's
+  level like every other line"""
+  version, support, text, f, dt, valids, invalids = FIELDS[idx]
+  g = gfapy.Gfa([text] + support, vlevel=vlevel)
+  line = [l for l in g.lines if str(l) == text][0]
+  if dt is not None and dt not in ("cross", "auto"):
+    line.set_datatype(f, dt)
+  v = invalids[vi]
+  probs = []
+  try:
+    line.set(f, v)
+  except gfapy.Error:
+    return probs
+  if vlevel >= 3:
+    probs.append(("invalid-assignment-not-reported-at-level-3",
+                  "line arriving first in a Gfa of open version: set({!r}, {!r}) "
+                  "returned".format(f, v)))
+  if vlevel >= 2:
+    r = do_op(line, "field_to_s", f)
+    if r == "ok":
+      probs.append(("invalid-value-written-at-level>=2",
+                    "line arriving first in a Gfa of open version"))
+  return probs
+
+
+def work_life(item):
+  idx = item
+  res = new_result()
+  found = {}
+  version, support, text, f, dt, valids, invalids = FIELDS[idx]
+  if dt == "cross":
+    res["found"] = found
+    return res
+  istag = dt is not None
+  modes = ["alone"] + (["gfa", "open-first"] if support else [])
+  for mode in modes:
+    for vlevel in (0, 1, 2, 3):
+      progs = LIFE_PROGRAMS if istag else [p for p in LIFE_PROGRAMS if "delete" not in p]
+      for prog in progs:
+        res["evaluations"] += 1
+        res["transitions"] += len(prog)
+        try:
+          with guard(3.0):
+            trace, probs = run_life(idx, vlevel, prog, mode)
+        except HarnessTimeout:
+          trace, probs = ["timeout"], [("timeout", "")]
+        except gfapy.Error as e:
+          trace, probs = ["setup:" + type(e).__name__], []
+        res["outcomes"].add(h(trace))
+        res["states"].add(h((idx, mode, vlevel, prog)))
+        for cl, det in probs:
+          k = (cl, idx, "life")
+          w = {"kind": "life", "idx": idx, "vlevel": vlevel, "prog": list(prog),
+               "mode": mode, "clause": cl}
+          size = (len(prog), vlevel, mode, prog)
+          old = found.get(k)
+          if old is None or size < old[0]:
+            found[k] = (size, w, det)
+      if mode == "open-first":
+        for vi in range(len(invalids)):
+          res["evaluations"] += 1
+          try:
+            with guard(3.0):
+              probs = invalid_in_open_gfa(idx, vi, vlevel)
+          except HarnessTimeout:
+            probs = [("timeout", "")]
+          except gfapy.Error:
+            probs = []
+          for cl, det in probs:
+            k = (cl, idx, "open")
+            w = {"kind": "open", "idx": idx, "vi": vi, "vlevel": vlevel, "clause": cl}
+            size = (vlevel, vi)
+            old = found.get(k)
+            if old is None or size < old[0]:
+              found[k] = (size, w, det)
+  res["found"] = found
+  return res
 
 
 PROGRAMS = [p for p in itertools.product(OPS, repeat=2)
@@ -302,6 +449,14 @@ def chunks(lst, n):
 
 
 def vkey(w):
+  if w["kind"] in ("life", "open"):
+    version, support, text, f, dt, valids, invalids = FIELDS[w["idx"]]
+    k = {"line": text, "field": f, "vlevel": str(w["vlevel"]), "kind": w["kind"]}
+    if w["kind"] == "life":
+      k["program"] = ",".join(w["prog"]); k["mode"] = w["mode"]
+    else:
+      k["value"] = repr(invalids[w["vi"]])
+    return k
   if w["kind"] == "program":
     version, support, text, f, dt, valids, invalids = FIELDS[w["idx"]]
     v = (valids if w["valid"] else invalids)[w["vi"]]
@@ -341,7 +496,7 @@ def run(ctx):
           found_all[k] = (size, w, det)
       ctx.merge(r)
   maxn = 3 if ctx.quick else 4
-  docs = c01.tag_documents() + c01.subset_documents(maxn) + c01.special_documents()
+  docs = c01.tag_documents(all_pairs=not ctx.quick) + c01.subset_documents(maxn) + c01.special_documents()
   absorb(ctx.pmap(work_levels, list(chunks(docs, 25)), chunksize=1))
   mt = []
   for version, lines, doc in (("gfa1", corpus.GFA1_LINES, corpus.GFA1_DOC),
@@ -351,7 +506,9 @@ def run(ctx):
   absorb(ctx.pmap(work_monotone, mt, chunksize=1))
   absorb(ctx.pmap(work_programs, [(i, c) for i in range(len(FIELDS))
                                   for c in (False, True)], chunksize=1))
-  ctx.bound_completed = {"documents": len(docs), "program_length": 3}
+  absorb(ctx.pmap(work_life, list(range(len(FIELDS))), chunksize=1))
+  ctx.bound_completed = {"documents": len(docs), "program_length": 3,
+                         "lifecycle_programs": len(LIFE_PROGRAMS)}
   ctx.sample({"program": ["set xx='1_0'", "get", "validate"], "line": "S\tA\t*"})
   ctx.sample({"document": docs[5][2]})
   for k, (size, w, det) in sorted(found_all.items(), key=lambda x: repr(x[0])):
@@ -360,6 +517,18 @@ def run(ctx):
 
 def replay(w, ctx):
   out = []
+  if w["kind"] == "life":
+    try:
+      trace, probs = run_life(w["idx"], w["vlevel"], tuple(w["prog"]), w["mode"])
+    except gfapy.Error:
+      return []
+    return [mkviolation(cl, vkey(w), w, "", det, "") for cl, det in probs]
+  if w["kind"] == "open":
+    try:
+      probs = invalid_in_open_gfa(w["idx"], w["vi"], w["vlevel"])
+    except gfapy.Error:
+      return []
+    return [mkviolation(cl, vkey(w), w, "", det, "") for cl, det in probs]
   if w["kind"] == "program":
     try:
       trace, probs = run_program(w["idx"], w["vi"], w["valid"], w["connected"],
